@@ -218,7 +218,7 @@ class Ctx:
         env = harness_env()
         env.update(getattr(self, 'replay_env', {}) or {})
         try:
-            r = subprocess.run(cmd, capture_output=True, text=True, timeout=300, errors='replace', env=env)
+            r = subprocess.run(cmd, capture_output=True, text=True, timeout=1800, errors='replace', env=env)
         except subprocess.TimeoutExpired:
             return ['TIMEOUT']
         sigs = []
